@@ -404,7 +404,8 @@ def strat_lru(tier):
 
 SCENARIOS = [
     Scenario('lazy_histories', run_history, strategy=strat_history, budget={'quick': 1500, 'thorough': 20000},
-             shards={'quick': 10, 'thorough': 16}),
+             shards={'quick': 10, 'thorough': 16},
+             fuzz_runs={'thorough': 60000}, instrument=('ml_metrics._src.chainables.lazy_fns',)),
     Scenario('lru_cache', run_lru, strategy=strat_lru, budget={'quick': 1500, 'thorough': 15000},
              shards={'quick': 2, 'thorough': 8}),
 ]
